@@ -51,6 +51,17 @@ func segmentPredicate(c *Ctx, g *ssa.Function) (segPredicate, bool) {
 			if e == "SEG.ignoreName" {
 				return b(ignored)
 			}
+			// a parameter segment has a name, a literal one has none (the constructor refuses empty names)
+			if strings.Contains(e, "SEG.Name") && strings.Contains(e, `CONST:""`) {
+				isLiteral := kind == "String"
+				switch {
+				case strings.HasPrefix(e, "EQ("):
+					return b(isLiteral)
+				case strings.HasPrefix(e, "NE("):
+					return b(!isLiteral)
+				}
+				return 0
+			}
 			if !strings.Contains(e, "SEG.Type") {
 				return 0
 			}
